@@ -41,7 +41,11 @@ namespace CDNS {
     class CdnsDecoder {
         public:
 
+#ifdef CDNS_VERIF_DECODER_BUFFER_SIZE
+        static constexpr std::size_t BUFFER_SIZE = CDNS_VERIF_DECODER_BUFFER_SIZE;
+#else
         static constexpr std::size_t BUFFER_SIZE = 65535;
+#endif
 
         /**
          * @brief Construct a new CdnsDecoder object
